@@ -248,6 +248,9 @@ fn respell(p: &Program, rng: &mut Rng) -> Program {
         }
         let n = if let Some(r) = s.strip_prefix('@') {
             format!("@R{}x{}{}", map.len(), salt, r.len())
+        } else if salt % 3 == 0 && map.len() < crate::gen::rewrite::LOOKALIKES.len() {
+            // names that look like keywords in another letter case are ordinary identifiers
+            crate::gen::rewrite::LOOKALIKES[map.len()].to_owned()
         } else {
             format!("N{}_{}", map.len(), salt)
         };
@@ -591,6 +594,17 @@ fn contexts() -> Vec<(&'static str, &'static str, fn(K) -> bool)> {
         ("join-right", "let zzk = {} & { 'a num } & H;", obj),
         ("sum-with-primitive", "let zzk = H | num;", prim),
         ("sum-with-object", "let zzk = {} | H;", obj),
+        ("sum-of-three-last", "let zzk = num | str | H;", prim),
+        ("sum-of-three-middle", "let zzk = num | H | str;", prim),
+        ("sum-of-three-first", "let zzk = H | num | str;", prim),
+        ("sum-of-four-third", "let zzk = {} | { 'a num } | H | {};", obj),
+        ("sum-through-function", "let zzf zzx zzy zzz = zzx | zzy | zzz; let zzk = zzf num str H;", prim),
+        // functions of an imported module whose parameter kind is fixed by an equation of their body (`LIB` is replaced
+        // by the import); positions that are only checked once kinds are resolved (array items, property values) leave the
+        // parameter open, which is the open finding on cross-module instantiation, not this table's subject
+        ("imported-mark-function", "LIB let zzk = zzl.zzopt H;", prop),
+        ("imported-join-function", "LIB let zzk = zzl.zzjoin H;", obj),
+        ("imported-media-function", "LIB let zzk = zzl.zzmedia H;", text),
         ("any-operand", "let zzk = H ~ num;", schema),
         ("ranges-operand", "let zzk = H :: <status=404>;", content_like),
         ("transfer-domain", "let zzk = put : H -> {};", content_like),
@@ -625,7 +639,8 @@ impl Workload for KindTable {
         let pair = idx / self.variants;
         let (cname, ctext, admits) = cs[(pair / FILLERS.len() as u64) as usize];
         let (ftext, fk) = FILLERS[(pair % FILLERS.len() as u64) as usize];
-        let decl = ctext.replace('H', ftext);
+        let decl = ctext.replace('H', ftext).replace("LIB", "use \"zzlib.oal\" as zzl;");
+        let needs_lib = ctext.contains("LIB");
         let variant = idx % self.variants;
         // variant 0: a minimal program; others: a generated well-kinded program, declaration first or last,
         // in any of its modules
@@ -638,6 +653,17 @@ impl Workload for KindTable {
             }
         };
         let k = (variant as usize / 2) % src.files.len();
+        if needs_lib {
+            // the library sits next to the module that imports it
+            let dir = match src.files[k].0.rfind('/') {
+                Some(i) => src.files[k].0[..=i].to_owned(),
+                None => String::new(),
+            };
+            src.files.push((
+                format!("{dir}zzlib.oal"),
+                "let zzopt zzp = zzp ?;\nlet zzjoin zzp = zzp & {};\nlet zzmedia zzp = <status=200, media=zzp, {}>;\nlet zzarr zzp = [zzp];\n".to_owned(),
+            ));
+        }
         if variant % 2 == 0 || src.files[k].1.contains("use ") {
             src.files[k].1.push_str(&format!("\n{decl}\n"));
         } else {
